@@ -66,6 +66,8 @@ struct hist_case {
 	/* optional earlier player run on the SAME loaded module (reused context only) */
 	int pre_rate, pre_fmt, pre_end;
 	struct c06_script prerun;
+	/* poison the members the model says load / start re-initialise (reused context only) */
+	int poison;
 };
 
 static int run_hist(const struct hist_case *hc)
@@ -85,6 +87,12 @@ static int run_hist(const struct hist_case *hc)
 	apply_script(B, &hc->hist, &junk);
 	printf("hist_state %d frames %ld\n", b->state, junk.frames);
 	copy_persistent(a, b);
+	if (hc->poison && c06_poison_n[0] > 0) {
+		/* a load releases a loaded module first; do that now so that the poison is what the load sees */
+		if (b->state >= XMP_STATE_LOADED)
+			xmp_release_module(B);
+		printf("poison load %d\n", c06_poison(b, 0));
+	}
 
 	c06_obs_init(&oa);
 	c06_obs_init(&ob);
@@ -114,6 +122,14 @@ static int run_hist(const struct hist_case *hc)
 		printf("oracle_fail loaded_info %016llx %016llx\n", (unsigned long long)oa.h, (unsigned long long)ob.h);
 		bad = 1;
 	}
+	/* what a load re-initialises must already agree now (members start rewrites would mask it later) */
+	c06_image_take(a, &ia);
+	c06_image_take(b, &ib);
+	c06_image_diff(stdout, "diff_loaded", &ia, &ib);
+	c06_image_free(&ia);
+	c06_image_free(&ib);
+	if (hc->poison && hc->prerun.n == 0 && c06_poison_n[1] > 0)
+		printf("poison start %d\n", c06_poison(b, 1));
 	if (hc->prerun.n > 0) {
 		/* B plays the freshly loaded module for a while, then the player is started again on both */
 		op.kind = OP_START; op.a = hc->pre_rate; op.b = hc->pre_fmt;
@@ -189,6 +205,7 @@ static void gen_hist(struct hist_case *hc, int maxhist)
 	hc->smix_chn = vrng_chance(25) ? vrng_range(1, 4) : 0;
 	hc->via_mem = vrng_chance(30);
 	hc->rng = (unsigned)vrng_next() | 1;
+	hc->poison = vrng_chance(60);
 	c06_gen_history(&hc->hist, vrng_range(1, maxhist), mods.n);
 	if (vrng_chance(35) && hc->hist.n + 3 < C06_MAXOPS) {
 		/* the same module was played earlier on this context, usually at another rate / format */
@@ -225,6 +242,8 @@ static void print_hist(int id, const struct hist_case *hc)
 	printf("case %d hist %s rate %d fmt %d smix %d mem %d rng %u\n", id, mods.path[hc->target], hc->rate, hc->fmt,
 		hc->smix_chn, hc->via_mem, hc->rng);
 	print_script("H", &hc->hist);
+	if (hc->poison)
+		printf("PO 1\n");
 	if (hc->prerun.n > 0) {
 		printf("PR %d %d %d\n", hc->pre_rate, hc->pre_fmt, hc->pre_end);
 		print_script("R", &hc->prerun);
@@ -387,6 +406,7 @@ static int replay(const char *file)
 		else if (!strncmp(line, "C ", 2)) s = &hc->ctl;
 		else if (!strncmp(line, "R ", 2)) s = &hc->prerun;
 		else if (sscanf(line, "PR %d %d %d", &hc->pre_rate, &hc->pre_fmt, &hc->pre_end) == 3) continue;
+		else if (sscanf(line, "PO %d", &hc->poison) == 1) continue;
 		if (s && s->n < C06_MAXOPS) {
 			struct c06_op *op = &s->op[s->n];
 			if (c06_parse_op(body, op) == 0) {
@@ -420,13 +440,24 @@ static int replay(const char *file)
  * Run in two processes whose allocator hands out differently filled memory
  * (ASAN_OPTIONS malloc_fill_byte): every line must be identical, because
  * nothing a context shows may depend on uninitialised heap contents. */
-static uint64_t image_digest(struct context_data *c, uint64_t *xxs)
+static uint64_t image_digest(struct context_data *c, uint64_t *xxs, int cyc)
 {
 	struct c06_image im;
 	uint64_t h = FNV_INIT;
 	int i;
 	c06_image_take(c, &im);
 	*xxs = 0;
+	/* per-member digests, so that a difference between two runs can be attributed */
+	printf("digm %d", cyc);
+	for (i = 0; i < im.n; i++) {
+		const struct c06_ent *e = &im.e[i];
+		int addr = e->leaf->kind == K_PTR && (!e->compared || !strcmp(e->leaf->ctor, "m_vol_table"));
+		if (!strcmp(e->leaf->ctor, "rng_state"))
+			continue;
+		printf(" %s=%016llx", e->leaf->ctor,
+			(unsigned long long)fnv1a(FNV_INIT, e->v, addr ? sizeof(int64_t) : (size_t)e->n * sizeof(int64_t)));
+	}
+	printf("\n");
 	for (i = 0; i < im.n; i++) {
 		const struct c06_ent *e = &im.e[i];
 		if (!strcmp(e->leaf->ctor, "rng_state"))
@@ -466,7 +497,7 @@ static int digest_mode(int n, char **paths)
 				free(d);
 			}
 			if (rc == 0 && c->m.mod.chn + c->smix.chn <= XMP_MAX_CHANNELS) {
-				img = image_digest(c, &xxs);
+				img = image_digest(c, &xxs, cyc);
 				memset(&op, 0, sizeof(op));
 				op.kind = OP_START; op.a = 44100; op.b = 0;
 				c06_apply(C, &op, &mods, &o);
@@ -490,6 +521,7 @@ int main(int argc, char **argv)
 	int ncases, maxhist, i;
 	uint64_t seed;
 
+	c06_poison_init();
 	if (argc >= 3 && !strcmp(argv[1], "--replay"))
 		return replay(argv[2]);
 	if (argc >= 3 && !strcmp(argv[1], "--digest"))
